@@ -166,11 +166,12 @@ LONG = [0]
 LOOKALIKE = [0]
 
 
-def maybe_long(rng, n, p=0.004, lo=120, hi=300):
+def maybe_long(rng, n, p=0.004, lo=120, hi=220):
     """Sentence length n, or - rarely - the length of a very long sentence.
     Uses its own random stream so that the other draws of the caller do not
     move.  The number of long sentences drawn is reported as a stratum by
-    the runner."""
+    the runner.  (Not longer than 220 tokens: the export format numbers the
+    constituents of a sentence 500..999.)"""
     import random as _random
     r = _random.Random(rng.random())
     if r.random() < p:
